@@ -803,7 +803,11 @@ def Mem.openLoad (m : Mem) : Mem :=
 def Mem.persistSketch (m : Mem) : Mem :=
   { m with pSketch := if m.sketch.isEmpty then m.pSketch else m.sketch }
 
-/-- `recover_wal`; `ft` = footer after a replay that rebuilt indexes / flushed Tantivy -/
+/-- the footer moves past whatever was just written (`ft` = observed footer, trace input) -/
+def Mem.bumpFooter (m : Mem) (ft : Nat) : Mem := { m with footer := max m.footer ft }
+
+/-- `recover_wal`; `ft` = footer after the replay (index rebuild / Tantivy flush / re-persisted sketch
+    track) -/
 def Mem.recoverWal (m1 : Mem) (ft : Nat) : Mem :=
   if m1.pending.isEmpty then m1.flushTantivy ft
   else
@@ -811,7 +815,7 @@ def Mem.recoverWal (m1 : Mem) (ft : Nat) : Mem :=
     | none => m1
     | some (ma, delta) =>
       -- (repaired code: the sketch track is re-persisted after the replay)
-      (if delta.nonEmpty then ma.rebuildIndexes delta.embs delta.inserted ft else ma.flushTantivy ft).persistSketch.checkpoint
+      ((if delta.nonEmpty then ma.rebuildIndexes delta.embs delta.inserted ft else ma.flushTantivy ft).persistSketch.bumpFooter ft).checkpoint
 
 /-- `load_memories_track`, `load_sketch_track` (repaired code: BEFORE the WAL replay, so that the
     replay's index rebuild persists them again) -/
